@@ -74,8 +74,17 @@ impl RFilter {
 }
 struct RecLayer {
     log: Log,
+    /// a sampling layer: it answers `sometimes` for every callsite (and then accepts everything)
+    sampler: bool,
 }
 impl<C: tracing_core::Collect> tracing_subscriber::Subscribe<C> for RecLayer {
+    fn register_callsite(&self, _: &'static tracing_core::Metadata<'static>) -> tracing_core::Interest {
+        if self.sampler {
+            tracing_core::Interest::sometimes()
+        } else {
+            tracing_core::Interest::always()
+        }
+    }
     fn on_event(&self, e: &tracing_core::Event<'_>, _: tracing_subscriber::subscribe::Context<'_, C>) {
         let m = e.metadata();
         self.log.lock().unwrap().push(json!({"col": 1, "call": "event", "lvl": vh_common::rec::rank(m.level()), "tgt": m.target(), "th": vh_common::rec::vt()}));
@@ -120,6 +129,7 @@ fn child() {
     let mut shared: Option<Dispatch> = None;
     if let Some(r) = sc.get("reload") {
         let v0 = RFilter::of(&r["values"][0]);
+        let sampler = r["sampler"].as_bool().unwrap_or(false);
         if r["kind"] == "env" || r["kind"] == "envplf" {
             // a second, idle collector that answers `sometimes` is alive as well (registered before the stack)
             let (c, _) = RecCollector::new(9, FilterRec { thr: 5, tgts: vec!["a".into(), "b".into()], kind: "lazy".into(), hint: None }, new_log());
@@ -127,9 +137,9 @@ fn child() {
             let (f, h) = tracing_subscriber::reload::Subscriber::new(v0.env());
             // as the global filter layer below the recording layer, or (envplf) as that layer's per-layer filter
             shared = Some(if r["kind"] == "envplf" {
-                Dispatch::new(tracing_subscriber::registry().with(RecLayer { log: log.clone() }.with_filter(f)))
+                Dispatch::new(tracing_subscriber::registry().with(RecLayer { log: log.clone(), sampler }.with_filter(f)))
             } else {
-                Dispatch::new(tracing_subscriber::registry().with(f).with(RecLayer { log: log.clone() }))
+                Dispatch::new(tracing_subscriber::registry().with(f).with(RecLayer { log: log.clone(), sampler }))
             });
             let h2 = h.clone();
             setter!(h, env);
@@ -145,12 +155,12 @@ fn child() {
             std::mem::forget(Dispatch::new(c));
             // a reloadable Option<Targets> global layer ABOVE the recording layer: None means the layer is absent
             let (f, h) = tracing_subscriber::reload::Subscriber::new(v0.opt_targets());
-            shared = Some(Dispatch::new(tracing_subscriber::registry().with(RecLayer { log: log.clone() }).with(f)));
+            shared = Some(Dispatch::new(tracing_subscriber::registry().with(RecLayer { log: log.clone(), sampler }).with(f)));
             setter!(h, opt_targets);
             reload_handle = Some(Arc::new(Mutex::new(Box::new(move |v: &RFilter| h.reload(v.opt_targets()).is_ok()) as Box<dyn Fn(&RFilter) -> bool + Send>)));
         } else if r["kind"] == "perlayer" {
             let (f, h) = tracing_subscriber::reload::Subscriber::new(v0.targets());
-            shared = Some(Dispatch::new(tracing_subscriber::registry().with(RecLayer { log: log.clone() }.with_filter(f))));
+            shared = Some(Dispatch::new(tracing_subscriber::registry().with(RecLayer { log: log.clone(), sampler }.with_filter(f))));
             setter!(h, targets);
             reload_handle = Some(Arc::new(Mutex::new(Box::new(move |v: &RFilter| h.reload(v.targets()).is_ok()) as Box<dyn Fn(&RFilter) -> bool + Send>)));
         } else {
@@ -159,7 +169,7 @@ fn child() {
             let (c, _) = RecCollector::new(9, FilterRec { thr: 5, tgts: vec!["a".into(), "b".into()], kind: "lazy".into(), hint: None }, new_log());
             std::mem::forget(Dispatch::new(c));
             let (f, h) = tracing_subscriber::reload::Subscriber::new(v0.targets());
-            shared = Some(Dispatch::new(tracing_subscriber::registry().with(f).with(RecLayer { log: log.clone() })));
+            shared = Some(Dispatch::new(tracing_subscriber::registry().with(f).with(RecLayer { log: log.clone(), sampler })));
             setter!(h, targets);
             reload_handle = Some(Arc::new(Mutex::new(Box::new(move |v: &RFilter| h.reload(v.targets()).is_ok()) as Box<dyn Fn(&RFilter) -> bool + Send>)));
         }
